@@ -11,7 +11,6 @@ import (
 	"fmt"
 	"io"
 	"os"
-	"runtime/pprof"
 	"strings"
 	"time"
 
@@ -27,7 +26,7 @@ type Case struct {
 	Cfg    Config `json:"cfg"`
 	Script Script `json:"script"`
 	// Level of the Stream runs: 2 = six uniform patterns + custom checker + every chunking of the last scripted
-	// turn; 1 = six uniform patterns + custom checker; 0 = uniform patterns 0, 3, 4, 5 only.
+	// turn; 1 = six uniform patterns + custom checker; 0 = uniform patterns 0, 4, 5 only.
 	Level int `json:"level"`
 }
 
@@ -186,7 +185,7 @@ func streamRuns(cs *Case, e *Expect) []streamRun {
 	}
 	for j := 0; j < nPatterns; j++ {
 		j := j
-		if cs.Level == 0 && (j == 1 || j == 2) {
+		if cs.Level == 0 && (j == 1 || j == 2 || j == 3) {
 			continue
 		}
 		add(fmt.Sprintf("uniform-pattern-%d", j), false, func(_ int, t Turn) []int { return pattern(j, t) })
@@ -326,8 +325,7 @@ func canonicalTurn(c Config, t Turn) bool {
 }
 
 // configs lists the configurations run with scripts of n turns (maxTurns = script bound of the tier).
-// Deepest level only: the unknown-tool handler is combined with (no modifier, invokable tools) and
-// (modifier, streamable tools) instead of all four.
+// Deepest level only: the unknown-tool handler is combined with (no modifier, invokable tools) only.
 func configs(n, maxTurns int) []Config {
 	var out []Config
 	bools := []bool{false, true}
@@ -347,7 +345,7 @@ func configs(n, maxTurns int) []Config {
 								if dep && n > 1 {
 									continue
 								}
-								if n == maxTurns && h && mod != st {
+								if n == maxTurns && h && (mod || st) {
 									continue
 								}
 								out = append(out, Config{Tools: ts, RD: rd, Handler: h, MaxStep: ms, Modifier: mod, StreamTools: st, Deprecated: dep})
@@ -399,7 +397,7 @@ func main() {
 	if !c.Quick() {
 		maxTurns, fullCH = 4, 3
 	}
-	c.Res.Rule = fmt.Sprintf("a case is a (configuration, model script) pair: configuration = tool set {t1}|{t1,t2} x return-directly set {}|{t2} x unknown-tool handler x MaxStep 0|2|3|4 x MessageModifier x invokable-only|streamable-only tools (x ToolCallingModel|deprecated Model for scripts of <=1 turn); script = <=%d assistant turns, each with text or not and 0-2 tool calls over {t1,t2,unk}, every turn reached under the configuration (scripts are paths of the reference model), optionally looping for ever on its last turn; cases are distinct as canonical (configuration, script) strings ({t1}-only tool sets keep one name for unknown tools); every case runs Generate once and Stream under 6 uniform chunking patterns + the custom checker, and, for scripts of <=%d turns, under every chunking of the last scripted turn into <=3 chunks (content-first chunkings only with a custom whole-stream checker); non-trivial = the script contains at least one tool call", maxTurns, fullCH)
+	c.Res.Rule = fmt.Sprintf("a case is a (configuration, model script) pair. Configuration = tool set {t1}|{t1,t2} x return-directly set {}|{t2} x unknown-tool handler x MaxStep 0|2|3|4 x MessageModifier x invokable-only|streamable-only tools (x ToolCallingModel|deprecated Model for scripts of <=1 turn; for scripts of exactly %[1]d turns the handler is combined with (no modifier, invokable tools) only). Script = n <= %[1]d assistant turns, each with text or not and 0-2 tool calls over {t1,t2,unk}, every turn reached under the configuration (scripts are the paths of the reference model, so nothing follows a final, failing or return-directly turn), optionally (n < %[1]d) repeating its last turn for ever. Cases are distinct as canonical (configuration, script) strings (with tool set {t1} and no return-directly set only 'unk' names an unknown tool). Runs per case: Generate once; Stream under the uniform chunking patterns 0-5 and once with the custom checker (n = %[1]d and looping scripts: patterns 0,4,5 only); and under every chunking into <=3 chunks of the last scripted turn when n < %[2]d and the configuration has (no modifier, invokable tools) or (modifier, streamable tools), or n = %[2]d with no modifier, invokable tools and MaxStep 0 (content-before-tool-call chunkings only with the custom whole-stream checker; not for the deprecated-Model configurations). Non-trivial = the script contains at least one tool call.", maxTurns, fullCH)
 	c.Res.Assumptions = []string{
 		"the scripted model gives unique non-empty tool-call ids, tool-call chunks carry Index, every chunk carries the assistant role",
 		"streamable tools emit two chunks; zero-chunk tool streams are outside the alphabet",
@@ -431,12 +429,6 @@ func main() {
 		c.ReplayExit(v.Scenario, err)
 	}
 
-	if pf := os.Getenv("C18_PROF"); pf != "" {
-		f, _ := os.Create(pf)
-		pprof.StartCPUProfile(f)
-		defer pprof.StopCPUProfile()
-		go func() { time.Sleep(25 * time.Second); pprof.StopCPUProfile(); f.Close() }()
-	}
 	alphabet := turnAlphabet()
 	dry := os.Getenv("C18_DRY") != "" // development aid: count cases and runs without executing them
 	stop := false
@@ -450,11 +442,14 @@ func main() {
 			case n == maxTurns:
 				level = 0
 			case cfg.Deprecated:
-			case n < fullCH || (n == fullCH && !cfg.Modifier && !cfg.StreamTools):
+			case (n < fullCH && cfg.Modifier == cfg.StreamTools) || (n == fullCH && !cfg.Modifier && !cfg.StreamTools && cfg.MaxStep == 0):
 				level = 2
 			}
 			scripts(cfg, n, n < maxTurns, alphabet, func(s Script) bool {
 				cs := &Case{Cfg: cfg, Script: s, Level: level}
+				if s.Loop {
+					cs.Level = 0 // every model answer is the same turn again: the chunkings of that turn are run on the script without the loop
+				}
 				name := cs.String()
 				if !c.Mine(name) {
 					return true
@@ -503,7 +498,9 @@ func main() {
 					return true
 				}
 				c.Res.Validated += int64(st.runs)
-				c.Sample(cs)
+				if len(s.Turns) >= 2 && s.hasToolCall() {
+					c.Sample(cs)
+				}
 				return true
 			})
 		}
